@@ -7,6 +7,17 @@
 use crate::*;
 use crate::verif_support::*;
 
+/// "ALWAYS panics" obligations are `#[kani::should_panic]` harnesses whose real check is the `unreach:` cover after
+/// the call.  Kani reports "no panics, but at least one was expected" as a failure WITHOUT a failed check when the
+/// callee never panics (the driver then says UNDECIDED instead of refuted); this nondeterministic sentinel panic keeps
+/// the should_panic verdict defined, so that a callee that returns normally is reported through the violated
+/// `unreach:` cover of the named obligation.  It constrains nothing: the other branch continues to the call.
+fn always_panics_sentinel() {
+    if kani::any() {
+        panic!("sentinel: not part of the obligation");
+    }
+}
+
 fn any_unit_full() -> Unit {
     Unit::new(kani::any::<i8>(), kani::any::<i8>())
 }
@@ -266,6 +277,7 @@ fn c14_command_sub_same_kind() {
 #[kani::proof]
 #[kani::should_panic]
 fn c14_command_add_different_kind_panics() {
+    always_panics_sentinel();
     let a: Command = kani::any();
     let b: Command = kani::any();
     kani::assume(raw_parts(a).0 != raw_parts(b).0);
@@ -277,6 +289,7 @@ fn c14_command_add_different_kind_panics() {
 #[kani::proof]
 #[kani::should_panic]
 fn c14_command_sub_different_kind_panics() {
+    always_panics_sentinel();
     let a: Command = kani::any();
     let b: Command = kani::any();
     kani::assume(raw_parts(a).0 != raw_parts(b).0);
@@ -288,6 +301,7 @@ fn c14_command_sub_different_kind_panics() {
 #[kani::proof]
 #[kani::should_panic]
 fn c14_command_add_assign_different_kind_panics() {
+    always_panics_sentinel();
     let mut a: Command = kani::any();
     let b: Command = kani::any();
     kani::assume(raw_parts(a).0 != raw_parts(b).0);
@@ -299,6 +313,7 @@ fn c14_command_add_assign_different_kind_panics() {
 #[kani::proof]
 #[kani::should_panic]
 fn c14_command_sub_assign_different_kind_panics() {
+    always_panics_sentinel();
     let mut a: Command = kani::any();
     let b: Command = kani::any();
     kani::assume(raw_parts(a).0 != raw_parts(b).0);
@@ -349,27 +364,49 @@ fn c14_command_scale_keeps_kind() {
     reach!();
 }
 
-//@ob fn="<Command as Mul<f32>>::mul" at=src/command.rs:108 clause="value of c * f is f32::from(c) * f (bit-identical), kind kept"
+// Value clauses of Mul<f32>/Div<f32>: the command is built with a CONCRETE variant (all three, one after the
+// other) and a symbolic payload, so that the operand of the crate's `f32::from(self) * rhs` is syntactically the
+// payload itself and CBMC shares the one multiplier/divider circuit between code and spec (a symbolic variant
+// makes SAT prove two dividers equivalent: > 35 min).  Complete: 3 variants x every f32 payload x every f32 factor.
+//@ob fn="<Command as Mul<f32>>::mul" at=src/command.rs:108 clause="for each of the three kinds, every payload x and every factor f (0, inf, NaN included): c * f has the same kind and value bit-identical to x * f"
 #[kani::proof]
 fn c14_command_mul_f32_value() {
-    let c: Command = kani::any();
+    let x: f32 = kani::any();
     let f: f32 = kani::any();
-    let (k, x) = raw_parts(c);
-    let (k2, y) = raw_parts(c * f);
-    assert!(k2 == k);
-    assert!(feq(y, x * f));
+    let want = x * f;
+    match Command::Position(x) * f {
+        Command::Position(y) => assert!(feq(y, want)),
+        _ => assert!(false),
+    }
+    match Command::Velocity(x) * f {
+        Command::Velocity(y) => assert!(feq(y, want)),
+        _ => assert!(false),
+    }
+    match Command::Acceleration(x) * f {
+        Command::Acceleration(y) => assert!(feq(y, want)),
+        _ => assert!(false),
+    }
     reach!();
 }
 
-//@ob fn="<Command as Div<f32>>::div" at=src/command.rs:116 clause="value of c / f is f32::from(c) / f (bit-identical), kind kept" tier=thorough
+//@ob fn="<Command as Div<f32>>::div" at=src/command.rs:116 clause="for each of the three kinds, every payload x and every divisor f (0, inf, NaN included): c / f has the same kind and value bit-identical to x / f"
 #[kani::proof]
 fn c14_command_div_f32_value() {
-    let c: Command = kani::any();
+    let x: f32 = kani::any();
     let f: f32 = kani::any();
-    let (k, x) = raw_parts(c);
-    let (k2, y) = raw_parts(c / f);
-    assert!(k2 == k);
-    assert!(feq(y, x / f));
+    let want = x / f;
+    match Command::Position(x) / f {
+        Command::Position(y) => assert!(feq(y, want)),
+        _ => assert!(false),
+    }
+    match Command::Velocity(x) / f {
+        Command::Velocity(y) => assert!(feq(y, want)),
+        _ => assert!(false),
+    }
+    match Command::Acceleration(x) / f {
+        Command::Acceleration(y) => assert!(feq(y, want)),
+        _ => assert!(false),
+    }
     reach!();
 }
 
